@@ -2402,6 +2402,10 @@ def _glom(target, spec, scope):
                 cur_scope.maps[0][CUR_ERROR] = e
                 cur_scope = cur_scope[UP]
         raise
+    finally:
+        # something lazy made by an earlier sibling (an Iter) may have
+        # been consumed in here, making children of the parent on the way
+        pmap[LAST_CHILD_SCOPE] = scope
 
 
 def AUTO(target, spec, scope):
